@@ -136,6 +136,29 @@ theorem C05_listed_or_granted (ag : Bool) (hist : List Op) (fs : User → FileSt
     · cases h
       exact absurd rfl hadm
 
+/-- **C05 (fail closed, at login).** With a missing user, a missing / unreadable / unparsable / empty
+file, a login is admitted only through a live grant: without one (or with grants disabled) it is
+rejected and the server state is untouched. -/
+theorem C05_fail_closed_login (ag : Bool) (hist : List Op) (fs : User → FileState) (u : User) (k : Key)
+    (hbad : fs u = .noUser ∨ fs u = .missing ∨ fs u = .unreadable ∨
+      ∃ data, fs u = .content data ∧ (parseAuthorizedKeys data = none ∨ parseAuthorizedKeys data = some []))
+    (hng : ag = false ∨ ∀ g, ¬ Unconsumed hist u k g) :
+    login (run (init ag) hist) fs u k = (.rejected, run (init ag) hist) := by
+  have hno := C05_fail_closed fs u k hbad
+  have hen : (run (init ag) hist).agEnabled = ag := by rw [run_enabled]; rfl
+  rw [login_eq]
+  simp only [hno, if_false, hen]
+  rcases hng with rfl | hng
+  · simp
+  · cases ag with
+    | false => simp
+    | true =>
+      have : grantsFor (run (init true) hist) u k = [] := by
+        apply List.eq_nil_iff_forall_not_mem.mpr
+        intro g hg
+        exact hng g ((grants_invariant hist u k g).mp ((mem_grantsFor _ _ _ _).mp hg))
+      simp [this]
+
 /-- **C05 (converse).** A listed key is admitted; with grants enabled so is a key holding a live grant. -/
 theorem C05_login_complete (ag : Bool) (hist : List Op) (fs : User → FileState) (u : User) (k : Key) :
     (Listed fs u k → (login (run (init ag) hist) fs u k).1 = .listed) ∧
